@@ -177,4 +177,15 @@ MUTANTS = [
          old="        T![.] => Some((23, 24)),", new="        // field access\n        T![.] => Some((23, 24)),"),
     dict(name="harmless-grammar-extra-peek", prop="C04", units=["u_grammar"], file="crates/parser/src/file.rs", expect=0,
          old="fn attribute_list(p: &mut Parser) -> MarkerClosed {\n    let m = p.open();", new="fn attribute_list(p: &mut Parser) -> MarkerClosed {\n    let m = p.open();\n    let _ = p.peek();"),
+    # ---- U-CAPT
+    dict(name="capt-let-not-bound", prop="C08", units=["u_capt"], file="crates/compiler/src/lift.rs", expect=1,
+         old="            bound.push(name.clone());\n            collect_captured(body, bound, captured, scope);\n            bound.pop();", new="            collect_captured(body, bound, captured, scope);"),
+    dict(name="capt-while-cond-skipped", prop="C08", units=["u_capt"], file="crates/compiler/src/lift.rs", expect=1,
+         old="        LiftExpr::EWhile { cond, body, .. } => {\n            collect_captured(cond, bound, captured, scope);", new="        LiftExpr::EWhile { cond: _, body, .. } => {"),
+    dict(name="capt-bound-not-popped", prop="C08", units=["u_capt"], file="crates/compiler/src/lift.rs", expect=1,
+         old="            collect_captured(body, bound, captured, scope);\n            bound.pop();", new="            collect_captured(body, bound, captured, scope);"),
+    dict(name="capt-match-default-skipped", prop="C08", units=["u_capt"], file="crates/compiler/src/lift.rs", expect=1,
+         old="            if let Some(default) = default {\n                collect_captured(default, bound, captured, scope);\n            }", new="            let _ = default;"),
+    dict(name="capt-harmless-order-of-branches", prop="C08", units=["u_capt"], file="crates/compiler/src/lift.rs", expect=0,
+         old="            collect_captured(then_branch, bound, captured, scope);\n            collect_captured(else_branch, bound, captured, scope);", new="            collect_captured(else_branch, bound, captured, scope);\n            collect_captured(then_branch, bound, captured, scope);"),
 ]
